@@ -54,11 +54,11 @@ func (m *recIm) GetValue(_ context.Context, key []byte) ([]byte, error) {
 }
 
 type c24FetchCase struct {
-	Concurrency int                 `json:"concurrency"`
-	Parent      map[string]string   `json:"parent"`
-	Txs         [][]string          `json:"tx_keys"`
-	TxIDs       []int               `json:"tx_ids"` // equal numbers = the same transaction id registered again
-	FailKey     string              `json:"fail_key,omitempty"`
+	Concurrency int               `json:"concurrency"`
+	Parent      map[string]string `json:"parent"`
+	Txs         [][]string        `json:"tx_keys"`
+	TxIDs       []int             `json:"tx_ids"` // equal numbers = the same transaction id registered again
+	FailKey     string            `json:"fail_key,omitempty"`
 }
 
 func TestC24(t *testing.T) {
